@@ -77,9 +77,9 @@ RULE = ('corpus; ranked profiles over 2..5 candidates (shared ranks 25 %, trunca
 PARTIAL = ['RoundedVotes is not additive by nature (C13_rounded_additive_refuted, C13_chain_rounded_refuted): its per-ballot image is decided. The exact '
            'image round_q holds of the code for every count outside the double-rounding class dr_class (no rounding boundary of the mode in the closed interval '
            'between the count and its 28 digit quotient: C13_rounded_code_outside_class; the counts of at most 28 significant digits are the special case '
-           'C13_rounded_code_exact) whose result fits 28 digits; inside the class the library rounds twice (C13_rounded_half_between_refuted: always wrong when a '
-           'half lies strictly between; when the count or the quotient IS the boundary the tie rule of the mode decides - not characterised further; for the '
-           'directed modes the class is sufficient, not exact: ROUND_DOWN does not jump at 0, ROUND_05UP not at 1 mod 5) or raises InvalidOperation - reproduced by '
+           'C13_rounded_code_exact) whose result fits 28 digits; inside the class the library rounds twice (the three HALF modes: wrong exactly on dr_class_half, '
+           'C13_rounded_half_class_exact; for the five directed modes the class is sufficient, not exact: ROUND_DOWN does not jump at 0, ROUND_05UP not at 1 mod 5) '
+           'or raises InvalidOperation - reproduced by '
            'Model/Convert2.v round_code, compared on the rounded-wide and rounded-class streams',
            'ScoreToSimpleVotes: theorems for the plain configuration (no unscored_value, min_count <= 0, no truncation) and ballot counts >= 0; sum is per-ballot exact and '
            'additive, mean and median_low are NOT additive (C13_score_mean_additive_refuted, C13_score_median_additive_refuted) - the property\'s list of converters '
@@ -1610,15 +1610,20 @@ def class_impl(c):
         code = '(0 %s)' % sx(Fraction(rv.convert({'A': x})['A']))
     except decimal.InvalidOperation:
         code = '(1 %d)' % common.E['OTHER']
-    return '(0 (%d %s %s %s))' % (1 if bit else 0, sx(v), code, sx(exact_round(x, d, m)))
+    # the exact class of the HALF modes: a half strictly inside, or an end point IS a half and its tie goes away from the other end
+    s2 = 2 * 10 ** d
+    odd_int = lambda t: t.denominator == 1 and t.numerator % 2 == 1
+    inside = any(j % 2 == 1 and lo * s2 < j < hi * s2 for j in range(math.floor(lo * s2), math.ceil(hi * s2) + 1))
+    ebit = v != x and (inside or (odd_int(lo * s2) and exact_round(lo, d, m) < lo) or (odd_int(hi * s2) and exact_round(hi, d, m) > hi))
+    return '(0 (%d %s %s %s %d))' % (1 if bit else 0, sx(v), code, sx(exact_round(x, d, m)), 1 if ebit else 0)
 
 
 def class_canon(c, wire):
     v = common.parse_sx(wire)
     if v[0] != 0:
         return repr(v)
-    bit, quo, code, exact = v[1]
-    return (bit, common.unq(quo), ('ok', common.unq(code[1])) if code[0] == 0 else ('err', code[1]), common.unq(exact))
+    bit, quo, code, exact, ebit = v[1]
+    return (bit, common.unq(quo), ('ok', common.unq(code[1])) if code[0] == 0 else ('err', code[1]), common.unq(exact), ebit)
 
 
 def class_spec(c, io, mo):
@@ -1626,7 +1631,7 @@ def class_spec(c, io, mo):
     v = common.parse_sx(io)
     if v[0] != 0:
         return None
-    bit, quo, code, exact = class_canon(c, io)
+    bit, quo, code, exact, ebit = class_canon(c, io)
     x, d, m = Fraction(c['x']), c['decimals'], c.get('method')
     if quo != sig_round_py(x):
         return 'Decimal(n) / Decimal(d) = %s is not the count rounded half-even to 28 significant digits (%s)' % (quo, sig_round_py(x))
@@ -1638,6 +1643,11 @@ def class_spec(c, io, mo):
         c['_class'] = 'rounded-outside-class'
         return 'outside the double-rounding class, but RoundedVotes gives %s, exact rounding %s' % (code[1], exact)
     half = m in (None, 'ROUND_HALF_UP', 'ROUND_HALF_DOWN', 'ROUND_HALF_EVEN')
+    if half and bool(ebit) != (code[1] != exact):
+        # C13_rounded_code_half_exact: for the HALF modes the library is wrong exactly on dr_class_half
+        c['_class'] = 'rounded-half-class'
+        return ('HALF mode: the count is %s the exact double-rounding class, but RoundedVotes gives %s, exact rounding %s'
+                % ('inside' if ebit else 'outside', code[1], exact))
     if half and quo != x:
         import math
         lo, hi = min(x, quo), max(x, quo)
